@@ -614,6 +614,35 @@ pub fn parse_trace(text: &str) -> Vec<(ConcCase, Vec<usize>)> {
 
 /// The four schedules proved non-linearizable in coq/Props/C04.v, as cases with a fixed schedule.
 pub fn witnesses() -> Vec<(ConcCase, Vec<usize>)> {
+    let mut v = witnesses_known();
+    let k = b"x".to_vec();
+    // a read-modify-write command carrying the item's CAS, an unconditional store by another
+    // client inside it: the command is refused (or comes first), it never overwrites the store
+    for (name, rmw, other) in [
+        ("append", COp::Append(k.clone(), 1, b"+x".to_vec()), b"B".to_vec()),
+        ("prepend", COp::Prepend(k.clone(), 1, b"x+".to_vec()), b"B".to_vec()),
+        ("replace", COp::Replace(k.clone(), b"R".to_vec(), 3, 0, 1), b"B".to_vec()),
+        ("incr", COp::Delta(true, k.clone(), 1, 0, 1, 40), b"9".to_vec()),
+    ] {
+        for split in 1..5usize {
+            let mut sched = vec![0; split];
+            sched.extend(vec![1; 6]);
+            sched.extend(vec![0; 8]);
+            v.push((
+                ConcCase {
+                    id: format!("w-guarded-{}-{}", name, split),
+                    prelude: vec![COp::Set(k.clone(), b"5".to_vec(), 7, 0, 0)],
+                    tick: 0,
+                    threads: vec![vec![rmw.clone()], vec![COp::Set(k.clone(), other.clone(), 0, 0, 0)]],
+                },
+                sched,
+            ));
+        }
+    }
+    v
+}
+
+pub fn witnesses_known() -> Vec<(ConcCase, Vec<usize>)> {
     let k = b"x".to_vec();
     vec![
         (
@@ -759,7 +788,12 @@ pub fn run_cases(seed: u64, cases: usize, flavor: &str, fixed: Vec<(ConcCase, Ve
             let mut classes: Vec<&str> = case.threads.iter().flatten().map(|o| o.class()).filter(|c| *c != "base").collect();
             classes.sort();
             classes.dedup();
-            let cl = if classes.is_empty() { "base".to_string() } else { classes.join("+") };
+            let mut cl = if classes.is_empty() { "base".to_string() } else { classes.join("+") };
+            // fixed cases in which the read-modify-write command carries the item's CAS and the key
+            // stays present: its final store is a compare-and-store, not one of the recorded findings
+            if case.id.starts_with("w-guarded") {
+                cl = "guarded".to_string();
+            }
             let _ = writeln!(monitor, "NONLIN {} {}", case.id, cl);
         }
     }
